@@ -102,64 +102,71 @@ Definition mon_start (p : params) (m : mon) (o : obs) : option mon :=
       end
   end.
 
-Definition mon_finish (p : params) (m : mon) (i : nat) (ok : bool) (o : obs) : option mon :=
-  match o_adm o, o_ran o with
-  | None, false =>
+(* the completion of the i-th call in flight, reading the hooks it needs from the front of [hs]
+   (already filtered by [vis]) and handing back the rest *)
+Definition mon_finish_k (p : params) (m : mon) (i : nat) (ok : bool) (hs : list hook) : option (mon * list hook) :=
     match nth_error (m_infl m) i with
-    | None => if is_nil (o_hooks o) then Some m else None
+    | None => None
     | Some g =>
       let m0 := mkmon (m_st m) (m_epoch m) (remove_nth i (m_infl m)) (m_succ m) (m_fail m) (m_deadline m) (m_now m) in
-      match mon_clock m0 (vis (o_hooks o)) with
+      match mon_clock m0 hs with
       | None => None
       | Some (m1, rest) =>
         let curz := Z.of_nat (length (m_infl m1)) in
         if negb (Nat.eqb g (m_epoch m1)) then
           (* admitted before the most recent state change: the outcome changes nothing *)
-          if is_nil rest then Some m1 else None
+          Some (m1, rest)
         else match m_st m1 with
         | Open => None      (* nobody is admitted by an open breaker, so no such call can exist *)
         | Closed =>
             if ok then
-              if is_nil rest
-              then Some (mkmon Closed (m_epoch m1) (m_infl m1) (m_succ m1 + 1) 0 (m_deadline m1) (m_now m1))
-              else None
+              Some (mkmon Closed (m_epoch m1) (m_infl m1) (m_succ m1 + 1) 0 (m_deadline m1) (m_now m1), rest)
             else
               let c := mkcounts curz 0 (m_fail m1 + 1) in
               if trip_of p c then      (* trips exactly when the rule holds for the consecutive failures *)
                 match rest with
-                | [HState Closed Open; HBackoff d r] =>
+                | HState Closed Open :: HBackoff d r :: rest' =>
                     if r =? m_now m1 + d
-                    then Some (mkmon Open (S (m_epoch m1)) (m_infl m1) 0 0 r (m_now m1))
+                    then Some (mkmon Open (S (m_epoch m1)) (m_infl m1) 0 0 r (m_now m1), rest')
                     else None
                 | _ => None
                 end
               else
-                if is_nil rest
-                then Some (mkmon Closed (m_epoch m1) (m_infl m1) 0 (m_fail m1 + 1) (m_deadline m1) (m_now m1))
-                else None
+                Some (mkmon Closed (m_epoch m1) (m_infl m1) 0 (m_fail m1 + 1) (m_deadline m1) (m_now m1), rest)
         | HalfOpen =>
             if ok then
               let c := mkcounts curz (m_succ m1 + 1) 0 in
               if reset_of p c then     (* closes exactly when the reset rule holds *)
                 match rest with
-                | [HState HalfOpen Closed] =>
-                    Some (mkmon Closed (S (m_epoch m1)) (m_infl m1) 0 0 (m_deadline m1) (m_now m1))
+                | HState HalfOpen Closed :: rest' =>
+                    Some (mkmon Closed (S (m_epoch m1)) (m_infl m1) 0 0 (m_deadline m1) (m_now m1), rest')
                 | _ => None
                 end
               else
-                if is_nil rest
-                then Some (mkmon HalfOpen (m_epoch m1) (m_infl m1) (m_succ m1 + 1) (m_fail m1) (m_deadline m1) (m_now m1))
-                else None
+                Some (mkmon HalfOpen (m_epoch m1) (m_infl m1) (m_succ m1 + 1) (m_fail m1) (m_deadline m1) (m_now m1), rest)
             else                       (* any failure re-opens with a new back-off *)
               match rest with
-              | [HState HalfOpen Open; HBackoff d r] =>
+              | HState HalfOpen Open :: HBackoff d r :: rest' =>
                   if r =? m_now m1 + d
-                  then Some (mkmon Open (S (m_epoch m1)) (m_infl m1) 0 (m_fail m1) r (m_now m1))
+                  then Some (mkmon Open (S (m_epoch m1)) (m_infl m1) 0 (m_fail m1) r (m_now m1), rest')
                   else None
               | _ => None
               end
         end
       end
+    end.
+
+(* in a breaker-only trace the completion's hooks must be exactly those: nothing may be left over *)
+Definition mon_finish (p : params) (m : mon) (i : nat) (ok : bool) (o : obs) : option mon :=
+  match o_adm o, o_ran o with
+  | None, false =>
+    match nth_error (m_infl m) i with
+    | None => if is_nil (o_hooks o) then Some m else None
+    | Some _ =>
+        match mon_finish_k p m i ok (vis (o_hooks o)) with
+        | Some (m', []) => Some m'
+        | _ => None
+        end
     end
   | _, _ => None
   end.
